@@ -1,4 +1,4 @@
 SPECIFICATION TraceSpec
-INVARIANTS C42_SameSet C42_AtLeastN C42_AllWhenDisabled
+INVARIANTS C42_SameSet C42_AtLeastN C42_AllWhenDisabled C42_EntryPointsAgree
 POSTCONDITION Accepted
 CHECK_DEADLOCK FALSE
